@@ -64,6 +64,10 @@ bool read_node(const NodeT& n, JVal& out, std::string& why, unsigned depth = 0) 
         why = "GetInt64 != GetUint64";
         return false;
       }
+      if (n.GetDouble() != (double)u) {  // documented conversion of an integer node
+        why = "GetDouble of an unsigned node is not (double)value";
+        return false;
+      }
       out = JVal::uint(u);
       return true;
     }
@@ -71,6 +75,10 @@ bool read_node(const NodeT& n, JVal& out, std::string& why, unsigned depth = 0) 
       int64_t i = n.GetInt64();
       if (i >= 0) {
         why = "signed kind holds a non-negative value";
+        return false;
+      }
+      if (n.GetDouble() != (double)i) {
+        why = "GetDouble of a signed node is not (double)value";
         return false;
       }
       out.k = JVal::Int;
